@@ -93,3 +93,42 @@ void f2s(Rng& rng)
         VH_RUN((convert<Tag, B>{}(x)), print_num)
     }
 }
+
+
+// plain integer -> coarser scaled_integer, and scaled_integer -> plain integer (these forward to the
+// scaled -> scaled operators through scaled_integer<Input> / scaled_integer<Result>)
+template<class Tag, class S, class D, int ED>
+void i2s(Rng& rng)
+{
+    std::string mode = TagN<Tag>::name();
+    using B = scaled_integer<D, power<ED>>;
+    std::vector<S> sv;
+    if constexpr (sizeof(S) <= 2)
+        sv = all_vals<S>();
+    else
+        sv = vals<S>(rng, 60 * scale_from_env(), 2);
+    for (S s : sv) {
+        printf("C09 s2s %s %s 0 %s %d ", mode.c_str(), tn<S>().c_str(), tn<D>().c_str(), ED);
+        prv(s);
+        fputs(" => ", stdout);
+        VH_RUN((convert<Tag, B>{}(s)), print_num)
+    }
+}
+template<class Tag, class S, int ES, class D>
+void s2i(Rng& rng)
+{
+    std::string mode = TagN<Tag>::name();
+    using A = scaled_integer<S, power<ES>>;
+    std::vector<S> sv;
+    if constexpr (sizeof(S) <= 2)
+        sv = all_vals<S>();
+    else
+        sv = vals<S>(rng, 60 * scale_from_env(), 2);
+    for (S s : sv) {
+        A a = _impl::from_rep<A>(s);
+        printf("C09 s2i %s %s %d %s ", mode.c_str(), tn<S>().c_str(), ES, tn<D>().c_str());
+        prv(s);
+        fputs(" => ", stdout);
+        VH_RUN((convert<Tag, D>{}(a)), print_tv)
+    }
+}
